@@ -165,12 +165,43 @@ func firstLine(s string) string {
 	return s
 }
 
-func runAttempt(b Builder, seq []*Call) []Obs {
+// expectations re-steps the model along seq.
+func expectations(b Builder, seq []*Call) []Expect {
+	out := make([]Expect, 0, len(seq))
+	m := b.Init()
+	for _, c := range seq {
+		nx, e, ok := m.Step(c)
+		if !ok {
+			break
+		}
+		out = append(out, e)
+		m = nx
+	}
+	return out
+}
+
+// hung is set when a probe of a runnable did not return: the worker reports it and stops (the stuck
+// goroutine cannot be recovered).
+var hung bool
+
+func withTimeout(f probeFn) string {
+	done := make(chan string, 1)
+	go func() { done <- f() }()
+	select {
+	case r := <-done:
+		return r
+	case <-time.After(20 * time.Second):
+		hung = true
+		return "hang:the runnable did not answer the probe input within 20s"
+	}
+}
+
+func runAttempt(b Builder, seq []*Call, exps []Expect) []Obs {
 	inst := b.New()
 	var first probeFn
 	baseUnstable := false
 	out := make([]Obs, 0, len(seq))
-	for _, c := range seq {
+	for i, c := range seq {
 		o := Obs{}
 		res, pan := safeDo(inst, c)
 		if pan != "" {
@@ -184,20 +215,26 @@ func runAttempt(b Builder, seq []*Call) []Obs {
 			o.Err = res.Err.Error()
 		}
 		created := false
-		if res.Run != nil {
+		// a Compile that the model rejects but the implementation accepts is reported as such; its runnable is not
+		// probed (an ill-formed graph that got through may well not terminate)
+		diverged := i < len(exps) && exps[i].From != stCompiled && exps[i].V == vReject
+		if os.Getenv("C20_PROBE_ALL") != "" {
+			diverged = false // development aid: look at what an ill-formed graph that got through computes
+		}
+		if res.Run != nil && !diverged && !hung {
 			if first == nil {
 				first = res.Run
 				created = true
-				o.Base = first()
-				if first() != o.Base {
+				o.Base = withTimeout(first)
+				if !hung && withTimeout(first) != o.Base {
 					baseUnstable = true
 				}
 			} else {
-				o.NewProbe = res.Run()
+				o.NewProbe = withTimeout(res.Run)
 			}
 		}
-		if first != nil && !created {
-			o.Probe = first()
+		if first != nil && !created && !hung {
+			o.Probe = withTimeout(first)
 		}
 		o.Unstable = baseUnstable
 		out = append(out, o)
@@ -283,13 +320,26 @@ func judge(cnt counters, b Builder, src Model, seq []*Call, exp Expect, traces [
 					site = site[k+2:]
 				}
 				return &finding{
-					sig: fmt.Sprintf("panic:%s:%s", b.Name(), site),
+					sig: fmt.Sprintf("panic:%s:%s", sigName(b), site),
 					msg: fmt.Sprintf("call %d (%s) panicked instead of returning an error: %s | %s", i+1, seq[i].Name, o.Panic, b.Name()+": "+render(seq, tr)),
 				}
 			}
 			if strings.HasPrefix(o.Base, "panic:") && i == n-1 {
 				// the freshly compiled runnable panics into its caller on the probe input: not this property's subject
 				cnt.Count("baseline_probe_panics", 1)
+			}
+		}
+	}
+
+	for _, tr := range traces {
+		for i, o := range tr {
+			for _, p := range []string{o.Base, o.Probe, o.NewProbe} {
+				if strings.HasPrefix(p, "hang:") {
+					return &finding{
+						sig: "runnable-hangs:" + sigName(b),
+						msg: fmt.Sprintf("after call %d (%s) a compiled runnable does not answer the probe input (no return within 20s) | %s", i+1, seq[i].Name, b.Name()+": "+render(seq, tr)),
+					}
+				}
 			}
 		}
 	}
@@ -301,7 +351,7 @@ func judge(cnt counters, b Builder, src Model, seq []*Call, exp Expect, traces [
 			a, c := t0[i], tr[i]
 			if a.Nil != c.Nil {
 				return &finding{
-					sig: "nondeterministic-outcome:" + b.Name(),
+					sig: "nondeterministic-outcome:" + sigName(b),
 					msg: fmt.Sprintf("call %d (%s) is accepted on one attempt and rejected on another attempt of the same sequence | attempt A: %s | attempt B: %s", i+1, seq[i].Name, render(seq, t0), render(seq, tr)),
 				}
 			}
@@ -326,12 +376,12 @@ func judge(cnt counters, b Builder, src Model, seq []*Call, exp Expect, traces [
 			}
 			if sortedWords(x) == sortedWords(y) {
 				return &finding{
-					sig: "nondeterministic-error-text-order:" + b.Name() + ":" + rules,
+					sig: "nondeterministic-error-text-order:" + sigName(b) + ":" + rules,
 					msg: fmt.Sprintf("call %d (%s) violates one rule (%s) but its error text lists the same names in different orders on different attempts: %q vs %q | %s", i+1, seq[i].Name, rules, x, y, b.Name()+": "+renderCalls(seq)),
 				}
 			}
 			return &finding{
-				sig: "nondeterministic-error-text:" + b.Name() + ":" + rules,
+				sig: "nondeterministic-error-text:" + sigName(b) + ":" + rules,
 				msg: fmt.Sprintf("call %d (%s) violates one rule (%s) but returns different error texts on different attempts of the same sequence, e.g. %q vs %q | %s", i+1, seq[i].Name, rules, x, y, b.Name()+": "+renderCalls(seq)),
 			}
 		}
@@ -353,7 +403,7 @@ func judge(cnt counters, b Builder, src Model, seq []*Call, exp Expect, traces [
 		case vAccept:
 			if !o.Nil {
 				return &finding{
-					sig: fmt.Sprintf("well-formed-rejected:%s:%s", b.Name(), last.Op),
+					sig: fmt.Sprintf("well-formed-rejected:%s:%s", sigName(b), last.Op),
 					msg: fmt.Sprintf("the model finds no violated rule, yet call %d (%s) is rejected: %s | %s", n, last.Name, o.Err, ctx()),
 				}
 			}
@@ -365,7 +415,7 @@ func judge(cnt counters, b Builder, src Model, seq []*Call, exp Expect, traces [
 				}
 				if last.IsCompile() {
 					return &finding{
-						sig: fmt.Sprintf("ill-formed-accepted:%s:%s", b.Name(), strings.Join(exp.Rules, "+")),
+						sig: fmt.Sprintf("ill-formed-accepted:%s:%s", sigName(b), strings.Join(exp.Rules, "+")),
 						msg: fmt.Sprintf("the construction violates [%s] but %s succeeds | %s", strings.Join(exp.Rules, ", "), last.Name, ctx()),
 					}
 				}
@@ -387,7 +437,7 @@ func judge(cnt counters, b Builder, src Model, seq []*Call, exp Expect, traces [
 			// ill-formed Add* accepted at Add time: it must be rejected by the time Compile returns
 			if last.IsCompile() && o.HasErr && o.Nil {
 				return &finding{
-					sig: fmt.Sprintf("ill-formed-accepted:%s:%s", b.Name(), strings.Join(exp.DeadRules, "+")),
+					sig: fmt.Sprintf("ill-formed-accepted:%s:%s", sigName(b), strings.Join(exp.DeadRules, "+")),
 					msg: fmt.Sprintf("call %d (%s) violates [%s]; it is accepted and so is the later %s | %s", exp.DeadPos+1, seq[exp.DeadPos].Name, strings.Join(exp.DeadRules, ", "), last.Name, ctx()),
 				}
 			}
@@ -397,19 +447,19 @@ func judge(cnt counters, b Builder, src Model, seq []*Call, exp Expect, traces [
 		if o.HasErr && o.Nil {
 			if exp.DeadCompile {
 				return &finding{
-					sig: "compile-error-not-sticky:" + b.Name() + ":" + ruleStage(exp.DeadRules),
+					sig: "compile-error-not-sticky:" + sigName(b) + ":" + ruleStage(exp.DeadRules),
 					msg: fmt.Sprintf("call %d (%s) was rejected [%s], yet the later call %d (%s) on the same construction succeeds: the first error does not stick | %s", exp.DeadPos+1, seq[exp.DeadPos].Name, strings.Join(exp.DeadRules, ", "), n, last.Name, ctx()),
 				}
 			}
 			return &finding{
-				sig: fmt.Sprintf("add-error-not-sticky:%s:%s:%s", b.Name(), exp.DeadOp, strings.Join(exp.DeadRules, "+")),
+				sig: fmt.Sprintf("add-error-not-sticky:%s:%s:%s", sigName(b), exp.DeadOp, strings.Join(exp.DeadRules, "+")),
 				msg: fmt.Sprintf("call %d (%s) was rejected [%s], yet the later call %d (%s) on the same construction succeeds: the first error does not stick | %s", exp.DeadPos+1, seq[exp.DeadPos].Name, strings.Join(exp.DeadRules, ", "), n, last.Name, ctx()),
 			}
 		}
 	case stCompiled:
 		if o.HasErr && o.Nil && !last.IsCompile() {
 			return &finding{
-				sig: fmt.Sprintf("modified-after-compile:%s:%s", b.Name(), last.Op),
+				sig: fmt.Sprintf("modified-after-compile:%s:%s", sigName(b), last.Op),
 				msg: fmt.Sprintf("after a successful Compile, %s is accepted | %s", last.Name, ctx()),
 			}
 		}
@@ -429,6 +479,11 @@ func judge(cnt counters, b Builder, src Model, seq []*Call, exp Expect, traces [
 		if unstable {
 			cnt.Count("probe_unstable_baseline", 1)
 			same = probeClass(ob.Probe) == probeClass(base)
+		}
+		if !same && i < n-1 {
+			// an earlier call already changed the first runnable: that transition is reported on its own
+			cnt.Count("continuations_of_an_already_reported_divergence", 1)
+			return nil
 		}
 		if !same && i == n-1 {
 			kind := "add-after-compile"
@@ -462,6 +517,9 @@ func ruleStage(rules []string) string {
 	}
 	return "compile-stage-rule"
 }
+
+// sigName: the stateful Graph flavour shares the classes of the plain one.
+func sigName(b Builder) string { return strings.TrimSuffix(b.Name(), "s") }
 
 func renderCalls(seq []*Call) string {
 	s := make([]string, len(seq))
@@ -557,11 +615,21 @@ func (e *engine) transition(b Builder, src Model, path []*Call, c *Call, exp Exp
 	seq = append(seq, path...)
 	seq = append(seq, c)
 	traces := make([][]Obs, attempts)
+	exps := expectations(b, seq)
 	for k := range traces {
-		traces[k] = runAttempt(b, seq)
+		traces[k] = runAttempt(b, seq, exps)
 		e.c.Res.Evaluations++
+		if hung {
+			traces = traces[:k+1]
+			break
+		}
 	}
 	e.c.Res.Transitions++
+	if os.Getenv("C20_DEBUG") != "" {
+		for i, o := range traces[0] {
+			fmt.Fprintf(os.Stderr, "  step %d %-45s err=%q base=%q probe=%q new=%q\n", i+1, seq[i].Name, o.Err, o.Base, o.Probe, o.NewProbe)
+		}
+	}
 	f := judge(e, b, src, seq, exp, traces)
 	nt := c.IsCompile() || src.Status() != stLive || (exp.V == vReject)
 	if !nt {
@@ -615,16 +683,12 @@ func (e *engine) expand(b Builder, nd *bfsNode) {
 			continue
 		}
 		e.c.StateStr(b.Name() + "#" + nx.Key())
-		if nd.m.Status() == stCompiled {
-			seq := append(append([]*Call{}, nd.path...), c)
-			names := make([]string, len(seq))
-			for i, x := range seq {
-				names[i] = x.Name
-			}
-			e.c.Journal(caseName(b, seq), Case{B: b.Name(), Calls: names})
-		}
 		if f := e.transition(b, nd.m, nd.path, c, exp, e.attemptsFor(c)); f != nil {
 			e.report(b, append(append([]*Call{}, nd.path...), c), f)
+		}
+		if hung {
+			e.c.Res.Capped, e.c.Res.CapReason = true, "worker stopped after a runnable hung"
+			return
 		}
 	}
 }
@@ -636,6 +700,7 @@ func (e *engine) bfs(b Builder) {
 	level := []*bfsNode{init}
 	for depth := 0; depth < maxLen && len(level) > 0; depth++ {
 		var next []*bfsNode
+		newStates := 0
 		for _, nd := range level {
 			name := caseName(b, nd.path)
 			mine := e.c.Mine(name)
@@ -650,6 +715,7 @@ func (e *engine) bfs(b Builder) {
 					continue
 				}
 				seen[k] = struct{}{}
+				newStates++
 				if depth+1 < maxLen {
 					p := make([]*Call, len(nd.path)+1)
 					copy(p, nd.path)
@@ -660,7 +726,7 @@ func (e *engine) bfs(b Builder) {
 			if !mine {
 				continue
 			}
-			if e.c.TimeUp() {
+			if e.c.TimeUp() || hung {
 				return
 			}
 			e.c.StateStr(b.Name() + "#" + nd.m.Key())
@@ -669,9 +735,7 @@ func (e *engine) bfs(b Builder) {
 				names[i] = x.Name
 			}
 			cs := Case{B: b.Name(), Calls: names, All: true}
-			if nd.m.Status() != stCompiled {
-				e.c.Journal(name, cs)
-			}
+			e.c.Journal(name, cs)
 			if err := e.c.Guard(name, cs, 120*time.Second, func() error { e.expand(b, nd); return nil }); err != nil {
 				e.c.Infra(fmt.Sprintf("check code failed on %s: %v", name, err))
 			}
@@ -679,7 +743,9 @@ func (e *engine) bfs(b Builder) {
 				e.c.Sample(map[string]any{"builder": b.Name(), "state_reached_by": names, "model_state": nd.m.Key()})
 			}
 		}
-		e.c.Count(fmt.Sprintf("model_states_at_depth_%d[%s]", depth+1, b.Name()), 0)
+		if e.c.Worker == 0 {
+			e.c.Count(fmt.Sprintf("model_states_first_reached_at_depth_%d[%s]", depth+1, b.Name()), int64(newStates))
+		}
 		level = next
 	}
 }
